@@ -145,4 +145,15 @@ void MPSreadRangesControl(RowsCtl& rset, int idx, double val)
    assert(rset.lhs(idx) == rset.rhs(idx));
    rset.rhs_w(idx) += val;
 }
+
+// R19.4: a do-while controlled by a countdown runs its body once even when the count is zero (the shape of findings F55 / F57)
+void countdown_do_while(int* a, int n, int count)
+{
+   do
+   {
+      --count;
+      a[n + count] = 0;
+   }
+   while(count > 0);
+}
 }
